@@ -130,7 +130,7 @@ func (e *engine) Generate(seed uint64, idx int, tier string, avoid []harness.Fin
 		c.Scen = "s3"
 		c.R = 2 + r.Intn(3)
 		c.Iter = 1 + r.Intn(4)
-		c.Kind = []string{"clos", "flavor", "hash"}[r.Intn(3)]
+		c.Kind = []string{"clos", "flavor", "hash", "struct"}[r.Intn(4)]
 		c.Resync = c.Kind != "hash" && r.Pct(40)
 	case x < 89:
 		c.Scen = "s6"
@@ -263,6 +263,13 @@ func (c *Case) program(sfx string) program {
 			}
 			setup.WriteString("))\n")
 			fmt.Fprintf(&b, "(let ((o (make-instance 'box%s)) (fin (make-channel 64)))\n (set-synchronized o t)\n", sfx)
+		case "struct":
+			fmt.Fprintf(&setup, "(defstruct sbox%s ", sfx)
+			for t := 0; t < c.R; t++ {
+				fmt.Fprintf(&setup, "(s%d 0) ", t)
+			}
+			setup.WriteString(")\n")
+			fmt.Fprintf(&b, "(let ((o (make-sbox%s)) (fin (make-channel 64)))\n (set-synchronized o t)\n", sfx)
 		case "flavor":
 			fmt.Fprintf(&setup, "(defflavor fbox%s (", sfx)
 			for t := 0; t < c.R; t++ {
@@ -283,6 +290,9 @@ func (c *Case) program(sfx string) program {
 			case "clos":
 				wr = fmt.Sprintf("(setf (slot-value o 's%d) (+ %d i))", t, (t+1)*100)
 				rd = fmt.Sprintf("(sim-emit \"read\" %d %d (slot-value o 's%d))", t, other, other)
+			case "struct":
+				wr = fmt.Sprintf("(setf (sbox%s-s%d o) (+ %d i))", sfx, t, (t+1)*100)
+				rd = fmt.Sprintf("(sim-emit \"read\" %d %d (sbox%s-s%d o))", t, other, sfx, other)
 			case "flavor":
 				wr = fmt.Sprintf("(send o :set-s%d (+ %d i))", t, (t+1)*100)
 				rd = fmt.Sprintf("(sim-emit \"read\" %d %d (send o :s%d))", t, other, other)
@@ -301,6 +311,8 @@ func (c *Case) program(sfx string) program {
 			switch c.Kind {
 			case "clos":
 				fmt.Fprintf(&b, " (sim-emit \"final\" %d (slot-value o 's%d))\n", t, t)
+			case "struct":
+				fmt.Fprintf(&b, " (sim-emit \"final\" %d (sbox%s-s%d o))\n", t, sfx, t)
 			case "flavor":
 				fmt.Fprintf(&b, " (sim-emit \"final\" %d (send o :s%d))\n", t, t)
 			default:
